@@ -640,12 +640,14 @@ def _execute_history(case):
                 check_dfa(result, perms, strict, idx, kind)
                 if result[0] == "v":
                     for perm in perms:
-                        loaded.add(perm)
                         p = dfa_path(perm)
-                        if p not in dfas and not faulted:
-                            dfas[p] = "ok"
-                        elif p not in dfas:
-                            dfas[p] = "maybe"
+                        if perm not in loaded:
+                            # a real file access happened (a memo hit touches no file)
+                            if p not in dfas and not faulted:
+                                dfas[p] = "ok"
+                            elif p not in dfas:
+                                dfas[p] = "maybe"
+                        loaded.add(perm)
                 else:
                     for perm in perms:
                         p = dfa_path(perm)
